@@ -93,6 +93,8 @@ Case vf_generate() {
     c.has_min = vf::chance(65); c.has_max = vf::chance(65);
     if (fl) {
       double flo = (double)vf::pick<int>(-400, 400) / 8.0, fhi = flo + (double)vf::pick<int>(0, 800) / 8.0;
+      // also bounds that no float represents exactly (0.1, 100.2, -0.3): the stored float differs from the declared double
+      if (vf::chance(40)) { int a10 = vf::pick<int>(-500, 500), w10 = vf::pick<int>(0, 1000); flo = a10 / 10.0; fhi = (a10 + w10) / 10.0; }
       char b[64];
       snprintf(b, sizeof b, "%g", flo); c.mins = b;
       snprintf(b, sizeof b, "%g", fhi); c.maxs = b;
